@@ -298,6 +298,14 @@ def guard(ck, fn, *a, **k):
     except Exception as e:
         tb = traceback.extract_tb(e.__traceback__)
         if not any(os.path.realpath(REPO) in os.path.realpath(fr.filename) for fr in tb):
+            # the oracle's own arithmetic on the library's outputs failed because two outputs that the property says have
+            # equal shapes do not: that is a failing input too, not a crash of the check
+            if isinstance(e, (RuntimeError, ValueError)) and ('must match the size of tensor' in str(e) or 'could not be broadcast' in str(e) or 'shapes' in str(e) and 'not aligned' in str(e)):
+                where = tb[-1]
+                ck.fail('%s: outputs of the library have inconsistent shapes (%s: %s, at %s:%d) on an input the property covers' % (
+                    fn.__name__, type(e).__name__, str(e)[:120], os.path.basename(where.filename), where.lineno),
+                    {'oracle': fn.__name__, 'note': 'shape mismatch between library outputs inside the oracle; re-run the check with the same VERIF_SEED and tier'})
+                return 'shape'
             raise
         where = [fr for fr in tb if os.path.realpath(REPO) in os.path.realpath(fr.filename)][-1]
         ck.fail('%s: the library raised %s: %s (%s:%d) on an input the property covers' % (
